@@ -4,7 +4,10 @@ Three independent parts, none of which looks at jedi's sources or at the Lean mo
 
 * `selections(src)`        every run of 1..4 whole sibling statements of every suite of every function
                            (the function body and every nested block), as an explicit range
-                           (line, column) .. (first line after the run, 0);
+                           (line, column) .. (first line after the run, 0); every run carries what it contains
+                           (`kinds`, `inside`) and `closure`: does it bind a name that a nested def / lambda of a
+                           LATER sibling reads from its body ('only': no other read behind the run; 'also'; None) -
+                           `pick_selections` draws such runs with more weight;
 * `Runner`                 executes the entry function of the old and the new program on argument tuples and
                            records which lines of the selection each tuple executed (the oracle of c06.py
                            draws tuples until every line of the selection was executed);
@@ -46,6 +49,9 @@ call can keep them.
         statement (try body, except) as if that had certainly happened (flow_analysis.reachability_check:
         `branch_matches` of the try is overwritten by that of the enclosing flow statement), the value
         from before the selection is not a parameter
+  extract-function-nested-loop-else-binding-assumed   the same blind spot for a `while` loop with an `else` clause that
+        is nested in another flow statement: a read in the else clause is resolved to a binding made directly in the
+        loop body as if the body had certainly run to that binding (`continue` / zero iterations ignored)
   extract-function-single-return-statement          the selection is exactly one `return x` line including its line
         break: _find_nodes takes `children[1]` of the simple_stmt (the newline) for the returned expression
   extract-function-no-output-variable               the selection binds no name and does not end in `return`:
@@ -437,6 +443,8 @@ class Unbound:
         self.name = name
         self.forbody = 'forbody' in variant
         self.tryhandler = 'tryhandler' in variant
+        self.loopelse = 'loopelse' in variant
+        self.variant = tuple(variant)
         self.nested = nested
         self.at = {}
 
@@ -501,6 +509,14 @@ class Unbound:
             if self.forbody and isinstance(s, ast.For):
                 done = body_out         # the body ran, to its end
                 return self.join(self.block(s.orelse, done, jumps) if done is not None else None)
+            if self.loopelse and self.nested > 1 and s.orelse and any(
+                    isinstance(x, (ast.Assign, ast.AugAssign, ast.AnnAssign)) and self.binds(x) for x in s.body):
+                # a loop nested in another flow statement: for the reads of its else clause a binding made directly
+                # in the loop body counts as having happened; the state behind the statement stays the real one
+                self.block(s.orelse, False, {'brk': [], 'cont': []})
+                real = Unbound(self.name, self.variant, self.nested)
+                done = real.block(s.orelse, head, jumps)
+                return self.join(done, *inner['brk'])
             done = self.block(s.orelse, head, jumps)
             return self.join(done, *inner['brk'])
         if isinstance(s, ast.Try):
@@ -666,9 +682,11 @@ def analyse(src, request):
 
 # the blind spots of jedi's lookup of a plain read (flow_analysis), alone and combined; a missing parameter is
 # attributed to the first entry under which the name is no longer read before it is bound
-VARIANTS = [('forbody',), ('tryhandler',), ('forbody', 'tryhandler')]
+VARIANTS = [('forbody',), ('tryhandler',), ('loopelse',), ('forbody', 'tryhandler'),
+            ('forbody', 'tryhandler', 'loopelse')]
 VARIANT_SHAPE = {'forbody': 'extract-function-for-body-assumed-executed',
-                 'tryhandler': 'extract-function-nested-try-clause-binding-assumed'}
+                 'tryhandler': 'extract-function-nested-try-clause-binding-assumed',
+                 'loopelse': 'extract-function-nested-loop-else-binding-assumed'}
 
 
 def failing_statement(src, facts, new_code, lineno, new_name):
